@@ -307,6 +307,19 @@ class Rule_CV11(BaseRule):
 
         functional_context = FunctionalContext(context)
 
+        # CAST and CONVERT are rewritten from their two arguments. If the
+        # function contents don't present (at least) two of them (e.g. the
+        # dialect parses the arguments of this particular call differently),
+        # there's nothing we can safely rewrite.
+        if current_type_casting_style in ("cast", "convert"):
+            _arguments = self._get_children(
+                functional_context.segment.children(
+                    sp.is_type("function_contents")
+                ).children(sp.is_type("bracketed"))
+            )
+            if len(_arguments) < 2:
+                return None
+
         # If casting style is set to consistent,
         # we use the casting style of the first segment we encounter.
         # convert_content = None
